@@ -49,6 +49,7 @@ reg("C11", "h_c10")
 reg("C13", "h_c13")
 reg("C03", "h_c03")
 reg("C03", "h_c03_deep", "asan")
+reg("C14", "h_c14", "asan")
 
 # quick / thorough wall-clock budgets per check (seconds); hitting one ends the run with exhaustive:false
 DEADLINE = {"quick": 150, "thorough": 1500}
@@ -222,11 +223,12 @@ def run_harness(bdir, sc, harness, tier, deadline, env_extra=None):
 def merge(stats):
     m = {"executions": 0, "choice_points": 0, "distinct_observations": 0, "infra_errors": 0, "crashes": 0, "replay_checked": 0,
          "replay_mismatch": 0, "configs_total": 0, "configs_done": 0, "capped_configs": 0, "max_trace": 0, "trace_overflow": 0,
-         "viol_overflow": 0, "deadline_hit": False, "outcomes": {}, "deviations": {}, "clause_hits": {}, "violations": [], "samples": []}
+         "viol_overflow": 0, "bfs_states": 0, "bfs_max_depth": 0, "deadline_hit": False, "outcomes": {}, "deviations": {}, "clause_hits": {}, "violations": [], "samples": []}
     for s in stats:
         for k in ("executions", "choice_points", "distinct_observations", "infra_errors", "crashes", "replay_checked", "replay_mismatch",
-                  "configs_done", "capped_configs", "trace_overflow", "viol_overflow"):
-            m[k] += s[k]
+                  "configs_done", "capped_configs", "trace_overflow", "viol_overflow", "bfs_states"):
+            m[k] += s.get(k, 0)
+        m["bfs_max_depth"] = max(m["bfs_max_depth"], s.get("bfs_max_depth", 0))
         m["configs_total"] = s["configs_total"]
         m["max_trace"] = max(m["max_trace"], s["max_trace"])
         m["deadline_hit"] = m["deadline_hit"] or s["deadline_hit"]
@@ -305,13 +307,15 @@ def check(prop, tier):
     ev = {
         "property_id": prop, "tier": tier, "seed": int(os.environ.get("VERIF_SEED", "0") or 0), "level": level,
         "coverage": {
-            "states": tot["distinct_observations"], "transitions": tot["choice_points"],
+            "states": (sum(m["bfs_states"] for m in allm) or tot["distinct_observations"]),
+            "transitions": (tot["executions"] if any(m["bfs_states"] for m in allm) else tot["choice_points"]),
             "traces_validated_against_impl": tot["replay_checked"],
             "evaluations": tot["executions"], "distinct_nontrivial": tot["distinct_observations"],
             "rule": "one evaluation = one complete execution of the real library under one choice sequence (schedule of child steps, fault answers, "
                     "clock outcomes) of one configuration; distinct = distinct hash of the API-level observation log (results, bytes, events); "
                     "states = distinct observation logs, transitions = choice points passed",
             "exhaustive": exhaustive,
+            "bfs_states": sum(m["bfs_states"] for m in allm), "bfs_max_depth": max(m["bfs_max_depth"] for m in allm),
             "configurations": tot["configs_total"], "configurations_done": tot["configs_done"], "capped_configurations": tot["capped_configs"],
             "deadline_hit": any(m["deadline_hit"] for m in allm),
             "bounds": {m["harness"]: m["deviations"] for m in allm},
